@@ -1841,47 +1841,76 @@ static int64_t eval2(Node *node, char ***label) {
   if (is_flonum(node->ty))
     return eval_double(node);
 
+  // Evaluate the operands of a binary operator left to right. If both
+  // are faulty, which one is diagnosed must not depend on the order
+  // the compiler that built us happens to choose.
+  int64_t lhs = 0;
+  int64_t rhs = 0;
+
   switch (node->kind) {
   case ND_ADD:
-    return eval2(node->lhs, label) + eval(node->rhs);
   case ND_SUB:
-    return eval2(node->lhs, label) - eval(node->rhs);
+    lhs = eval2(node->lhs, label);
+    rhs = eval(node->rhs);
+    break;
   case ND_MUL:
-    return eval(node->lhs) * eval(node->rhs);
+  case ND_DIV:
+  case ND_MOD:
+  case ND_BITAND:
+  case ND_BITOR:
+  case ND_BITXOR:
+  case ND_SHL:
+  case ND_SHR:
+  case ND_EQ:
+  case ND_NE:
+  case ND_LT:
+  case ND_LE:
+    lhs = eval(node->lhs);
+    rhs = eval(node->rhs);
+    break;
+  }
+
+  switch (node->kind) {
+  case ND_ADD:
+    return lhs + rhs;
+  case ND_SUB:
+    return lhs - rhs;
+  case ND_MUL:
+    return lhs * rhs;
   case ND_DIV:
     if (node->ty->is_unsigned)
-      return (uint64_t)eval(node->lhs) / eval(node->rhs);
-    return eval(node->lhs) / eval(node->rhs);
+      return (uint64_t)lhs / rhs;
+    return lhs / rhs;
   case ND_NEG:
     return -eval(node->lhs);
   case ND_MOD:
     if (node->ty->is_unsigned)
-      return (uint64_t)eval(node->lhs) % eval(node->rhs);
-    return eval(node->lhs) % eval(node->rhs);
+      return (uint64_t)lhs % rhs;
+    return lhs % rhs;
   case ND_BITAND:
-    return eval(node->lhs) & eval(node->rhs);
+    return lhs & rhs;
   case ND_BITOR:
-    return eval(node->lhs) | eval(node->rhs);
+    return lhs | rhs;
   case ND_BITXOR:
-    return eval(node->lhs) ^ eval(node->rhs);
+    return lhs ^ rhs;
   case ND_SHL:
-    return eval(node->lhs) << eval(node->rhs);
+    return lhs << rhs;
   case ND_SHR:
     if (node->ty->is_unsigned && node->ty->size == 8)
-      return (uint64_t)eval(node->lhs) >> eval(node->rhs);
-    return eval(node->lhs) >> eval(node->rhs);
+      return (uint64_t)lhs >> rhs;
+    return lhs >> rhs;
   case ND_EQ:
-    return eval(node->lhs) == eval(node->rhs);
+    return lhs == rhs;
   case ND_NE:
-    return eval(node->lhs) != eval(node->rhs);
+    return lhs != rhs;
   case ND_LT:
     if (node->lhs->ty->is_unsigned)
-      return (uint64_t)eval(node->lhs) < eval(node->rhs);
-    return eval(node->lhs) < eval(node->rhs);
+      return (uint64_t)lhs < rhs;
+    return lhs < rhs;
   case ND_LE:
     if (node->lhs->ty->is_unsigned)
-      return (uint64_t)eval(node->lhs) <= eval(node->rhs);
-    return eval(node->lhs) <= eval(node->rhs);
+      return (uint64_t)lhs <= rhs;
+    return lhs <= rhs;
   case ND_COND:
     return eval(node->cond) ? eval2(node->then, label) : eval2(node->els, label);
   case ND_COMMA:
@@ -2002,15 +2031,29 @@ static double eval_double(Node *node) {
     return eval(node);
   }
 
+  // Operands are evaluated left to right; see eval2().
+  double lhs = 0;
+  double rhs = 0;
+
   switch (node->kind) {
   case ND_ADD:
-    return eval_double(node->lhs) + eval_double(node->rhs);
   case ND_SUB:
-    return eval_double(node->lhs) - eval_double(node->rhs);
   case ND_MUL:
-    return eval_double(node->lhs) * eval_double(node->rhs);
   case ND_DIV:
-    return eval_double(node->lhs) / eval_double(node->rhs);
+    lhs = eval_double(node->lhs);
+    rhs = eval_double(node->rhs);
+    break;
+  }
+
+  switch (node->kind) {
+  case ND_ADD:
+    return lhs + rhs;
+  case ND_SUB:
+    return lhs - rhs;
+  case ND_MUL:
+    return lhs * rhs;
+  case ND_DIV:
+    return lhs / rhs;
   case ND_NEG:
     return -eval_double(node->lhs);
   case ND_COND:
